@@ -25,13 +25,13 @@ pub fn run(ctx: &Ctx, rep: &mut Report) {
         "C16" => super::real_c16::case(ctx, &env, &dir, case, seed, rep),
         "C07" => super::real_misc::c07_prefix_case(ctx, &env, &dir, case, seed, rep),
         "C08" => super::real_misc::c08_rawname_case(ctx, &env, &dir, case, seed, rep),
+        // names that are not valid UTF-8 get recorded and loaded back by a second invocation
+        "C12" if case % 6 == 5 => super::real_misc::c08_rawname_case(ctx, &env, &dir, case, seed, rep),
         "C12" => super::real_misc::c12_process_case(ctx, &env, &dir, case, seed, rep),
         "C20" => super::real_misc::c20_pty_case(ctx, &env, &dir, case, seed, rep),
         "C06" if case % 4 == 1 => super::real_misc::c06_deep_chain_case(ctx, &env, &dir, case, seed, rep),
         // termination at process level: whatever a successful command leaves behind as its depfile
         "C06" if case % 4 == 3 => super::real_misc::c12_process_case(ctx, &env, &dir, case, seed, rep),
-        // names that are not valid UTF-8 get recorded and loaded back by a second invocation
-        "C12" if case % 6 == 5 => super::real_misc::c08_rawname_case(ctx, &env, &dir, case, seed, rep),
         "C18" if case % 2 == 0 => super::real_misc::c18_args_case(ctx, &env, &dir, case, seed, rep),
         "C19" if case % 2 == 0 => super::real_gated::c19_pty_case(ctx, &env, &dir, case, seed, rep),
         "C05" if case % 4 == 2 => super::real_gated::c05_sigint_case(ctx, &env, &dir, case, seed, rep),
